@@ -54,6 +54,8 @@ def modelled_codes():
         5: _code(cfw.__exit__),
         6: _code(specifiers._AsForged.__get__),
         7: _code(_util.OverrideableDataDesc.__get__),
+        8: _code(specifiers._ForgerWrapper.__get__),
+        9: _code(specifiers._transform),
     }
     return table
 
@@ -71,8 +73,14 @@ def _subject_of(fid, frame):
         if fid == 6:
             inst = loc.get('instance')
             return loc.get('owner') if inst is None else inst
-        if fid == 7:
+        if fid == 7 or fid == 8:
             return loc.get('self')
+        if fid == 9:
+            # _transform(obj, meta) works for the _ForgerWrapper.__get__ frame that called it
+            back = frame.f_back
+            if back is not None and back.f_code is _code(specifiers._ForgerWrapper.__get__):
+                return back.f_locals.get('self')
+            return None
     except Exception:  # noqa: BLE001
         return None
     return None
@@ -853,6 +861,248 @@ def explore_C(ctx, rep, workers):
 
 
 # ----------------------------------------------------------------------------
+# machine F: the one-time lazy transform of _ForgerWrapper.__get__ (emulate=True forgers)
+# ----------------------------------------------------------------------------
+def _f_make(item, strict=False):
+    return item, strict
+
+
+F_KINDS = ['L', 'I', 'S', 'B']
+F_KIND_NAMES = {
+    'L': 'sigtools.signature(lookup)  [lookup forwards to Registry.__class_getitem__]',
+    'I': 'inspect.signature(Registry.__class_getitem__)',
+    'S': 'sigtools.signature(Registry.__class_getitem__)',
+    'B': 'b = Registry.__class_getitem__; inspect.signature(b.__wrapped__)',
+}
+F_SPEC = {'L': '(item, strict=False)', 'I': '(item, strict=False)', 'S': '(item, strict=False)',
+          'B': '(*args, **kwargs)'}
+
+
+class FScenario(object):
+    """A FRESH, never bound class whose __class_getitem__ carries an emulate=True forger:
+    the first bindings of the attribute (which run the lazy classmethod transform on the
+    shared descriptor in the class __dict__) happen inside the scheduled threads."""
+    machine = 'F'
+    name = 'forger-transform'
+
+    def __init__(self):
+        class Registry(object):
+            @specifiers.forwards_to_function(_f_make, emulate=True)
+            def __class_getitem__(cls, *args, **kwargs):
+                return _f_make(*args, **kwargs)
+
+        def lookup(*args, **kwargs):
+            return Registry.__class_getitem__(*args, **kwargs)
+        self.R = Registry
+        self.lookup = lookup
+        self.desc = vars(Registry)['__class_getitem__']
+        self.tracked = [self.desc]
+
+    def call(self, kind):
+        R, lookup = self.R, self.lookup
+        if kind == 'L':
+            return lambda: str(sigtools.signature(lookup))
+        if kind == 'I':
+            return lambda: str(inspect.signature(R.__class_getitem__))
+        if kind == 'S':
+            return lambda: str(sigtools.signature(R.__class_getitem__))
+        return lambda: str(inspect.signature(R.__class_getitem__.__wrapped__))
+
+    def final(self):
+        """(flag, __wrapped__ is a classmethod/staticmethod) of the shared descriptor"""
+        d = self.desc
+        return (bool(getattr(d, '_transformed', None)),
+                isinstance(d.__dict__.get('__wrapped__'), (classmethod, staticmethod)))
+
+
+_F_SOLO = {}
+
+
+def f_solo(kind):
+    """what the retrieval returns on a fresh class when it runs alone (measured once per process)"""
+    if kind not in _F_SOLO:
+        _F_SOLO[kind] = _safe(FScenario().call(kind))
+    return _F_SOLO[kind]
+
+
+def f_answer_num(kind, text):
+    if text == f_solo(kind):
+        return 1
+    raw = {'L': '(cls, item, strict=False)', 'I': '(cls, item, strict=False)',
+           'S': '(cls, item, strict=False)', 'B': '(cls, *args, **kwargs)'}[kind]
+    return 2 if text == raw else 99
+
+
+def _worker_F(job):
+    kinds, plans = job
+    sys.setswitchinterval(0.005)
+    out = []
+    for p in plans:
+        sc = FScenario()                       # fresh class per plan
+        r = Run([sc.call(k) for k in kinds], sc.tracked)
+        status = r.run_plan(list(p))
+        res = list(r.result)
+        again = [_safe(sc.call(k)) for k in kinds]     # quiescence: later calls
+        out.append({'status': status, 'results': res, 'traces': [list(t) for t in r.trace],
+                    'final': sc.final(), 'again': again})
+    return out
+
+
+def run_batch_F(kinds, plans, workers):
+    chunk = max(1, min(100, (len(plans) + workers - 1) // workers))
+    jobs = [(kinds, plans[i:i + chunk]) for i in range(0, len(plans), chunk)]
+    if workers <= 1 or len(jobs) == 1:
+        res = [_worker_F(j) for j in jobs]
+    else:
+        import multiprocessing
+        ctxmp = multiprocessing.get_context('fork')
+        with concurrent.futures.ProcessPoolExecutor(max_workers=workers, mp_context=ctxmp) as ex:
+            res = list(ex.map(_worker_F, jobs))
+    return [o for part in res for o in part]
+
+
+FPREAMBLE = PREAMBLE + 'Require Import Sigtools.Proofs.SchedForger.\nOpen Scope N_scope.\n'
+
+
+def judge_F(kinds, plan, o):
+    out = []
+    for tid, (k, res) in enumerate(zip(kinds, o['results'])):
+        if res != f_solo(k):
+            out.append(('C17:forger-transform-race',
+                        'emulate=True forger on __class_getitem__ of a fresh class, threads %s, plan %s: thread %d %s returned %s, alone it returns %s'
+                        % (''.join(kinds), list(plan), tid, F_KIND_NAMES[k], res, f_solo(k))))
+    if o['status'] == 'ok':
+        if o['final'] != (True, True):
+            out.append(('C17:forger-transform-lost',
+                        'emulate=True forger, threads %s, plan %s: after the threads finished the shared descriptor has (_transformed, __wrapped__ transformed) = %s'
+                        % (''.join(kinds), list(plan), o['final'])))
+        for k, a in zip(kinds, o['again']):
+            if a != f_solo(k):
+                out.append(('C17:forger-transform-lost',
+                            'emulate=True forger, threads %s, plan %s: after the threads finished %s returns %s instead of %s'
+                            % (''.join(kinds), list(plan), F_KIND_NAMES[k], a, f_solo(k))))
+    return out
+
+
+def explore_F(ctx, rep, workers):
+    rng = ctx.rng('plansF')
+    for k in F_KINDS:
+        if f_solo(k) != F_SPEC[k]:
+            rep.violation('C17:solo-answer', 'emulate=True forger on __class_getitem__: %s alone returns %s, expected %s'
+                          % (F_KIND_NAMES[k], f_solo(k), F_SPEC[k]),
+                          {'machine': 'F', 'kinds': [k], 'plan': [[0, None]]})
+            return
+    K = 13
+    two = all_plans(2, 2, K)
+    sets = []
+    pairs = [(a, b) for a in F_KINDS for b in F_KINDS]
+    if ctx.quick:
+        # every plan for four pairs, a third of the plans (seeded) for the other twelve
+        full = set([('L', 'L'), ('I', 'S'), ('B', 'I'), ('S', 'L')])
+        for pr in pairs:
+            ps = two if pr in full else [p for p in two if rng.random() < 0.34]
+            sets.append((list(pr), ps, pr in full))
+    else:
+        for pr in pairs:
+            sets.append((list(pr), two, True))
+    n3 = 150 if ctx.quick else 3000
+    for trio in (['L', 'I', 'S'], ['B', 'S', 'L']):
+        ps = set()
+        while len(ps) < n3:
+            ps.add(random_plan(rng, 3, 2, K))
+        sets.append((trio, sorted(ps, key=str), False))
+    cov = rep.coverage.setdefault('F', {})
+    shards = []
+    results = []
+    for kinds, plans, exhaustive in sets:
+        obs = run_batch_F(kinds, plans, workers)
+        results.append((kinds, plans, obs, exhaustive))
+        for i in range(0, len(plans), 1000):
+            intern = {}
+
+            def tr_name(tr):
+                key = tuple(tr)
+                if key not in intern:
+                    intern[key] = 'tr%d' % len(intern)
+                return intern[key]
+            body = ';\n'.join(
+                '(%s, %s)' % (coq_plan(p), 'None' if o['status'] != 'ok' else '(Some ([%s], (%s, %s)))' % (
+                    '; '.join('(%d, %s)' % (f_answer_num(k, r), tr_name(t))
+                              for k, r, t in zip(kinds, o['results'], o['traces'])),
+                    coqrun.coq_bool(o['final'][0]), coqrun.coq_bool(o['final'][1])))
+                for p, o in zip(plans[i:i + 1000], obs[i:i + 1000]))
+            defs = ''.join('Definition %s : list N := [%s].\n' % (nm, '; '.join(str(c) for c in key))
+                           for key, nm in intern.items())
+            pre = (FPREAMBLE + defs
+                   + 'Definition cases : list (plan * option (list (N * list N) * (bool * bool))) := [\n%s].\n' % body)
+            shards.append((len(results) - 1, (i, pre, 'disagreeing (fun x => fcase_agrees %d%%nat (fst x) (snd x)) cases 0' % len(kinds))))
+    disagree = dict((i, set()) for i in range(len(results)))
+    with concurrent.futures.ThreadPoolExecutor(max_workers=min(10, workers)) as ex:
+        for (ri, _sh), bad in zip(shards, ex.map(eval_shard, [sh for _, sh in shards])):
+            disagree[ri].update(bad)
+    for ri, (kinds, plans, obs, exhaustive) in enumerate(results):
+        stats = {'plans': len(plans), 'valid': 0, 'nonsequential': 0, 'both_transform': 0,
+                 'model_disagreements': len(disagree[ri]), 'preemption_positions': K,
+                 'exhaustive_le2_preemptions': exhaustive}
+        for i, (p, o) in enumerate(zip(plans, obs)):
+            rep.evaluations += 1
+            if o['status'] == 'ok':
+                stats['valid'] += 1
+                if sum(1 for t in o['traces'] if 901 in t) >= 2:
+                    stats['both_transform'] += 1
+                rep.distinct.add(('F', tuple(kinds), tuple(o['results']), tuple(tuple(t) for t in o['traces'])))
+            v = judge_F(kinds, p, o)
+            if v:
+                stats['nonsequential'] += 1
+            rp = {'machine': 'F', 'kinds': kinds, 'plan': [list(x) for x in p]}
+            for key, what in v:
+                rep.violation(key, what, rp)
+            if i in disagree[ri]:
+                rep.corr_break('C17 machine F: plan outcome (answers, line traces, flag / transformed at the end)', rp,
+                               'see Proofs/SchedForger.v frun_plan',
+                               {k: o[k] for k in ('status', 'results', 'traces', 'final')})
+        cov['forger-transform/%s' % ''.join(kinds)] = stats
+
+
+def stress_F(ctx, rep, seconds):
+    """first bindings on a fresh class by 3 free-running threads"""
+    rng = ctx.rng('stressF')
+    old = sys.getswitchinterval()
+    rounds = wrong = 0
+    try:
+        sys.setswitchinterval(1e-6)
+        t_end = time.time() + seconds
+        while time.time() < t_end:
+            rounds += 1
+            sc = FScenario()
+            kinds = [rng.choice(F_KINDS) for _ in range(3)]
+            barrier = threading.Barrier(3)
+            res = [None] * 3
+
+            def body(i):
+                fn = sc.call(kinds[i])
+                try:
+                    barrier.wait(10)
+                except threading.BrokenBarrierError:
+                    return
+                res[i] = _safe(fn)
+            ths = [threading.Thread(target=body, args=(i,), daemon=True) for i in range(3)]
+            for t in ths:
+                t.start()
+            for t in ths:
+                t.join(30)
+            for k, r in zip(kinds, res):
+                if r != f_solo(k):
+                    wrong += 1
+                    rep.violation('C17:forger-transform-race',
+                                  'stress, emulate=True forger on a fresh class: %s returned %s, alone %s'
+                                  % (F_KIND_NAMES[k], r, f_solo(k)), {'machine': 'stressF'})
+    finally:
+        sys.setswitchinterval(old)
+    rep.coverage['stressF'] = {'rounds': rounds, 'wrong_answers': wrong}
+
+
+# ----------------------------------------------------------------------------
 # randomized stress (true preemption, minimal switch interval)
 # ----------------------------------------------------------------------------
 def stress(ctx, rep, seconds):
@@ -944,12 +1194,15 @@ def run(ctx, rep):
     explore_W(ctx, rep, workers)
     explore_G(ctx, rep, workers)
     explore_C(ctx, rep, workers)
+    explore_F(ctx, rep, workers)
     stress(ctx, rep, 4.0 if ctx.quick else 30.0)
+    stress_F(ctx, rep, 2.0 if ctx.quick else 15.0)
     rep.traces = rep.evaluations
     rep.assumptions.extend([
         'threads are preempted only at line events of the modelled sigtools functions '
         '(forged_signature, autoforwards_function, cleanup_functools_wrapper.__init__/__enter__/__exit__, '
-        '_AsForged.__get__, OverrideableDataDesc.__get__) whose frame works on the shared object; '
+        '_AsForged.__get__, OverrideableDataDesc.__get__, _ForgerWrapper.__get__ and the _transform it calls) '
+        'whose frame works on the shared object; '
         'preemption inside C code or inside inspect/ast, and the real granularity of the GIL, are not exhibited by the '
         'model (only by the randomized stress part)',
         'inspect.signature reads __wrapped__/__signature__ as one atomic step (validated: no modelled line lies inside it)',
@@ -985,6 +1238,23 @@ def replay(ctx, data):
         if not o['final_ok']:
             bad.append('the method lost its signature / behaviour')
         return '; '.join(bad) if bad else None
+    if d.get('machine') == 'F':
+        kinds = list(d['kinds'])
+        plan = [(t, n) for t, n in d['plan']]
+        o = _worker_F((kinds, [plan]))[0]
+        v = judge_F(kinds, plan, o)
+        return '; '.join(w for _, w in v) if v else None
+    if d.get('machine') == 'stressF':
+        class RF(object):
+            def __init__(self):
+                self.v = []
+                self.coverage = {}
+
+            def violation(self, key, what, rp):
+                self.v.append(what)
+        rf = RF()
+        stress_F(ctx, rf, 8.0)
+        return '; '.join(rf.v[:3]) if rf.v else None
     if d.get('machine') == 'stress':
         class R(object):
             def __init__(self):
